@@ -138,3 +138,58 @@ pub fn edge_plane(rep: &crate::report::Report, n: usize, seed: u64, core: bool, 
         loc.flush(rep);
     });
 }
+
+/// History plane shared by the value monitors: instruction sequences executed on ONE machine with the reference
+/// model in lock-step (the next instruction starts from the observed state, memory writes accumulate), so that
+/// anything carried from one instruction to the next -- a stale cache, a reused buffer, a flag computed lazily --
+/// shows as a divergence at the step where it matters. `gen` must avoid the instructions with recorded known
+/// findings (they would end every history early).
+pub fn history_plane(rep: &crate::report::Report, nhist: usize, maxlen: usize, seed: u64, core: bool, what: &str, prefix: &str, gen: &(dyn Fn(&mut crate::util::Rng) -> Ins + Sync)) {
+    use crate::gen::*;
+    crate::util::par_for(nhist, 2, |h| {
+        let mut rng = crate::util::Rng::new(seed).fork(0x4157_0000 + h as u64);
+        thread_local! { static HB: std::cell::RefCell<Option<Bench>> = std::cell::RefCell::new(None); }
+        HB.with(|cell| {
+            let mut slot = cell.borrow_mut();
+            if slot.is_none() {
+                let mut b = crate::c01::bench_with_labels(0x48);
+                for (nm, o) in EDGE_LABELS {
+                    b.add_data_label(nm, o);
+                }
+                *slot = Some(b);
+            }
+            let b = slot.as_mut().unwrap();
+            let mut agg = FailAgg::new();
+            let mut loc = crate::report::Local::default();
+            let mut r = hostile_regs(&mut rng);
+            r[FLAG] &= !TF;
+            b.keep = true;
+            let len = 2 + rng.below(maxlen.max(3) - 1);
+            let mut done = 0usize;
+            for step in 0..len {
+                let ins = gen(&mut rng);
+                if let Ins::Str(rp, ..) = &ins {
+                    if *rp != Rep::None {
+                        r[CX] = rng.below(6) as u16;
+                    }
+                }
+                let line = ins.ir();
+                let mn = ins.class().split(' ').next().unwrap_or("?").to_string();
+                let out = check_ins(b, &ins, &line, &r, &mut agg, core, what, &|c| Some(format!("{}:history:{}:{}", prefix, mn, if c.starts_with("reg:") { "register" } else { c })));
+                loc.evals += 1;
+                done += 1;
+                if !out.ok {
+                    break;
+                }
+                r = out.post;
+                let _ = step;
+            }
+            loc.distinct.insert(fnv64(format!("hist|{}|{}", prefix, done.min(64)).as_bytes()));
+            *loc.counters.entry("instructions executed in lock-step histories").or_insert(0) += done as u64;
+            b.end_history();
+            b.restore_mem();
+            agg.flush(rep);
+            loc.flush(rep);
+        });
+    });
+}
